@@ -1,5 +1,6 @@
 import RbV.Basic.Codec
 import RbV.Ref.EditDist
+import RbV.Model.Ukkonen
 /-! Driver for property C09: approximate matchers and distance functions.
 
 `c09 my <s|l> <w> <new|bld> <pattern> <amb> <wild> <op>/… => <obs>/…`
@@ -144,11 +145,21 @@ def verdictUk (toks : List String) (out : String) : String :=
       | none => "bad-op uk-search"
       | some es =>
         let strs := es.map (fun e => showPairs e.1)
+        -- the mirror model of the Rust code (cut-off column with stale cells) is run on the same searches; it is
+        -- proved equal to the oracle (`ukkonen_eq`), so a difference can only mean model and compiled driver drifted
+        let modelStrs := searches.map fun s =>
+          match s.splitOn ":" with
+          | [ks, ph, th] =>
+            match parseNat ks, parseHex ph, parseHex th with
+            | some k, some p, some t => showPairs (RbV.Model.Ukkonen.findAllEnd w p t k)
+            | _, _, _ => "?"
+          | _ => "?"
+        let drift := if modelStrs = strs then "" else " drift"
         if strs = obs then
           let nt := es.any fun e => !e.1.isEmpty && e.1.length < e.2 && e.1.any (fun h => h.2 > 0)
           "ok uk" ++ (if nt then " nt" else "") ++ (if cs = "unit" then " unit" else " table")
-            ++ (if es.length > 1 then " reuse" else "")
-        else "diff " ++ "/".intercalate strs
+            ++ (if es.length > 1 then " reuse" else "") ++ drift
+        else "diff " ++ "/".intercalate strs ++ (if modelStrs = obs then " (mirror model agrees with the implementation)" else "")
   | _ => "bad-op uk-arity"
 
 def verdictDist (toks : List String) (out : String) : String :=
